@@ -116,7 +116,11 @@ def pipeline(rng, perm=False, mixed=None):
         _noise(rng, ops, cancel=cancel, timeouts=timeouts)
     if mixed if mixed is not None else rng.random() < 0.3:       # one extra exchange in the reverse direction
         m = rng.randrange(nm)
-        scripts[rng.choice(cons)].insert(rng.randint(0, 3), _put(rng, m, ["puta", "putd"]))
+        c = rng.choice(cons)
+        if perm:
+            scripts[c] += ["sleep:10", _put(rng, m, ["puta", "putd"])]
+        else:
+            scripts[c].insert(rng.randint(0, 3), _put(rng, m, ["puta", "putd"]))
         scripts[rng.choice(prod)].append("%s:%d" % (rng.choice(gk), m))
     return {"family": "permanent-clean" if perm else "pipeline", "plat": platform(rng), "mb": "P" * nm, "nq": 0, "scripts": scripts}
 
